@@ -372,6 +372,143 @@ def native_replay(ws, root, crate, fq, hname, harness_file_in_ws):
 
 
 # --------------------------------------------------------------------------
+# native helper (real code, no stubs): built against the scratch copy
+
+def build_native(ws):
+    """-> path of the verif_native binary built against the scratch copy `ws`"""
+    nd = os.path.join(ws, "verif_native")
+    if os.path.exists(nd):
+        shutil.rmtree(nd)
+    shutil.copytree(os.path.join(VERIF, "native"), nd)
+    t = open(os.path.join(nd, "Cargo.toml.in")).read().replace("@WS@", ws)
+    open(os.path.join(nd, "Cargo.toml"), "w").write(t)
+    shutil.copyfile(os.path.join(ws, "Cargo.lock"), os.path.join(nd, "Cargo.lock"))
+    os.makedirs(os.path.join(nd, ".cargo"), exist_ok=True)
+    open(os.path.join(nd, ".cargo", "config.toml"), "w").write("[net]\noffline = true\n")
+    td = os.path.join(CACHE, "native-target")
+    env = dict(os.environ)
+    env["CARGO_NET_OFFLINE"] = "true"
+    env.pop("RUSTUP_TOOLCHAIN", None)
+    lockf = open(os.path.join(CACHE, "native.lock"), "w") if os.path.isdir(CACHE) or not os.makedirs(CACHE, exist_ok=True) else None
+    fcntl.flock(lockf, fcntl.LOCK_EX)
+    try:
+        r = subprocess.run(["cargo", "build", "--offline", "--release", "--target-dir", td], cwd=nd, env=env,
+                           stdout=subprocess.PIPE, stderr=subprocess.STDOUT)
+        if r.returncode != 0:
+            raise Inconclusive("native helper does not build against this tree: " +
+                               r.stdout.decode("utf-8", "replace")[-1500:])
+        dst = os.path.join(nd, "verif_native.bin")
+        shutil.copyfile(os.path.join(td, "release", "verif_native"), dst)
+        os.chmod(dst, 0o755)
+    finally:
+        fcntl.flock(lockf, fcntl.LOCK_UN)
+    return dst
+
+
+def native_parse_props(binpath, texts):
+    """real syntax::parse on concrete texts -> list of result dicts"""
+    out = []
+    for t in texts:
+        hx = t.encode("utf-8").hex()
+        try:
+            r = subprocess.run([binpath, "parse-props", hx], stdout=subprocess.PIPE, stderr=subprocess.PIPE,
+                               timeout=30)
+            js = r.stdout.decode("utf-8", "replace").strip()
+            res = json.loads(js) if js else []
+            if res:
+                out.append(res[0])
+            else:
+                out.append({"text": t, "crashed": True, "rc": r.returncode,
+                            "stderr": r.stderr.decode("utf-8", "replace")[-300:]})
+        except subprocess.TimeoutExpired:
+            out.append({"text": t, "hang": True})
+    return out
+
+
+def get_playback_vals(ws, root, crate, fq, hname):
+    """concrete values (kani::any() order) for every failed check of the harness"""
+    td = os.path.join(CACHE, "kt", f"{crate}-replay")
+    lp = os.path.join(root, f"playback-{hname}.log")
+    run_kani(ws, PACKAGE_OF[crate], [fq], td, lp, 1800, mem_gb=20,
+             extra=["-Z", "concrete-playback", "--concrete-playback=print"])
+    txt = open(lp, "rb").read().replace(b"\x00", b"").decode("utf-8", "replace")
+    out = []
+    for name, kind, desc, src in extract_playbacks(txt):
+        if kind == "cover":
+            continue
+        out.append({"check": f"{kind}: {desc}", "vals": decode_vals(src)})
+    return out, lp
+
+
+def replay_parse(prop_oracle, decoder):
+    """custom native replay for parser-level harnesses (ghost stubs make kani's own
+    playback meaningless): realise the counterexample's token kinds as text and check the
+    property on the real syntax::parse."""
+    def run(ws, root, h, r, fails, crate, fq):
+        import realise
+        pbs, lp = get_playback_vals(ws, root, crate, fq, h["name"])
+        names = realise.kind_names(ws)
+        texts = []
+        for pb in pbs:
+            for kinds in decoder(pb["vals"]):
+                ks = [names[k] if k < len(names) else "Error" for k in kinds]
+                t = realise.realise(ks)
+                if t not in texts:
+                    texts.append(t)
+                t2 = realise.realise(ks, sep="")
+                if t2 not in texts:
+                    texts.append(t2)
+        derived = len(texts)
+        texts += [b for b in realise.BATTERY if b not in texts]
+        binp = build_native(ws)
+        res = native_parse_props(binp, texts)
+        bad = []
+        for i, x in enumerate(res):
+            why = prop_oracle(x)
+            if why:
+                bad.append({"text": x.get("text"), "why": why, "from_counterexample": i < derived, "result": x})
+        return (len(bad) > 0), {"counterexamples": pbs[:5], "texts_tried": texts, "native_failures": bad[:10],
+                                "log": lp}
+    return run
+
+
+def oracle_c01(x):
+    if x.get("hang") or x.get("panicked") or x.get("crashed"):
+        return None
+    if not x.get("lossless", True):
+        return "tree text != input (not lossless)"
+    if not x.get("ranges_ok", True):
+        return "token ranges do not equal the positions of their text"
+    return None
+
+
+def oracle_c02(x):
+    if x.get("hang"):
+        return "parse did not return within the watchdog"
+    if x.get("panicked") or x.get("crashed"):
+        return "parse panicked"
+    if not x.get("errors_ok", True):
+        return "syntax error with empty message or range outside the text / off char boundary"
+    return None
+
+
+def oracle_c01c02(x):
+    return oracle_c01(x) or oracle_c02(x)
+
+
+def decode_l1(vals):
+    """L1 harness: n, then (kind, width, name) per token"""
+    try:
+        n = int.from_bytes(bytes(vals[0]), "little")
+        if n > 8:
+            return []
+        kinds = [vals[1 + 3 * i][0] for i in range(n)]
+        return [kinds]
+    except Exception:
+        return []
+
+
+# --------------------------------------------------------------------------
 # main check flow
 
 def functions_in_log(path):
@@ -384,6 +521,11 @@ def functions_in_log(path):
                          r"enum_range_check|[\w-]+)\.\d+\s*$", txt, re.M):
         fns.add(m.group(1))
     return fns
+
+
+REPLAYS = {
+    "l1": replay_parse(oracle_c01c02, decode_l1),
+}
 
 
 def check(prop, tier, only=None, seed=0):
@@ -455,7 +597,7 @@ def check(prop, tier, only=None, seed=0):
                     hfile = os.path.join(ws, "verif_h", os.path.basename(hf))
             custom = h.get("replay")
             if custom:
-                rep, det = custom(ws, root, h, r, fails)
+                rep, det = REPLAYS[custom](ws, root, h, r, fails, crate, fq)
             else:
                 rep, det = native_replay(ws, root, crate, fq, h["name"], hfile)
             os.makedirs(os.path.join(VERIF, "replays"), exist_ok=True)
